@@ -205,6 +205,10 @@ CHECKS = {
              "EvalCall/FnSem (L1)",
         assumptions=["the harness functions compute the same pure functions as WfEval!FnSem (twin definitions)"],
         stages=[
+            mc("calls-0", "MC_C03.tla", "MC_C03_0.cfg"),
+            mc("calls-1", "MC_C03.tla", "MC_C03_1.cfg"),
+            mc("calls-2", "MC_C03.tla", dict(quick=None, thorough="MC_C03_2.cfg")),
+            mc("calls-3", "MC_C03.tla", dict(quick=None, thorough="MC_C03_3.cfg")),
             lang("calls", "rich", 4000, 150000, ["--nctx", "6", "--depth", "3", "--callpct", "70"], shards=SH),
         ],
     ),
@@ -334,6 +338,8 @@ CHECKS = {
              "expression, validated against WfSyntax!UsesLogical/UsesListLogical",
         assumptions=[],
         stages=[
+            mc("calls-0", "MC_C03.tla", "MC_C03_0.cfg"),
+            mc("calls-3", "MC_C03.tla", "MC_C03_3.cfg"),
             lang("uses", "rich", 4000, 120000, ["--nctx", "1", "--depth", "3", "--callpct", "60", "--listpct", "35"], shards=SH),
         ],
     ),
